@@ -51,6 +51,8 @@ type encError struct{ msg string }
 func (e encError) Error() string { return e.msg }
 
 type Enc struct {
+	top *Frame
+	runLemma map[string]bool
 	tables map[string]*Term
 	P         *Program
 	Top       *ssa.Function
